@@ -43,6 +43,7 @@ struct WakeCase {
     oracle: Vec<(String, String, String)>,
     feats: Vec<String>,
     sq_len: u32,
+    cq_len: u32,
     fill_fd: Option<&'static a10::AsyncFd>,
     fills: Vec<std::pin::Pin<Box<dyn std::future::Future<Output = std::io::Result<Vec<u8>>>>>>,
 }
@@ -54,7 +55,9 @@ impl WakeCase {
         let mode = get("mode").unwrap_or("").to_string();
         let sqn: u32 = get("sq").and_then(|v| v.parse().ok()).unwrap_or(0);
         let steps: u32 = get("steps").and_then(|v| v.parse().ok()).unwrap_or(40);
-        let ok = matches!(mode.as_str(), "default" | "sqpoll" | "single") && sqn.is_power_of_two() && sqn <= 64;
+        // `cq=`: completion queue size (default 64): a power of two, at least the submission queue's
+        let cqn: u32 = get("cq").and_then(|v| v.parse().ok()).unwrap_or(64);
+        let ok = matches!(mode.as_str(), "default" | "sqpoll" | "single") && sqn.is_power_of_two() && sqn <= 64 && cqn.is_power_of_two() && cqn >= sqn && cqn <= 64;
         simk::reset();
         let mut c = WakeCase {
             ring: Arc::new(Mutex::new(None)),
@@ -71,6 +74,7 @@ impl WakeCase {
             oracle: Vec::new(),
             feats: Vec::new(),
             sq_len: sqn,
+            cq_len: cqn,
             fill_fd: None,
             fills: Vec::new(),
         };
@@ -78,7 +82,7 @@ impl WakeCase {
             return c;
         }
         simk::activate(simk::SetupCfg::default());
-        let mut cfg = Ring::config().with_submission_queue_size(sqn).with_completion_queue_size(64);
+        let mut cfg = Ring::config().with_submission_queue_size(sqn).with_completion_queue_size(cqn);
         match mode.as_str() {
             "sqpoll" => cfg = cfg.with_kernel_thread(),
             "single" => cfg = cfg.single_issuer(),
@@ -100,13 +104,14 @@ impl WakeCase {
         }
     }
 
+    /// (completions available: in the queue + on the overflow list, published submissions)
     fn counts(&self) -> (usize, u32) {
         simk::with_ring(self.rfd, |r, _| (r.cq_count() as usize + r.overflow.len(), r.sq_pending()))
     }
 
     fn state(&self) -> String {
-        let (cq, sq) = self.counts();
-        format!("word={} cq={cq} sq={sq} returns={}", self.word(), self.returns)
+        let (cq, ovf, sq) = simk::with_ring(self.rfd, |r, _| (r.cq_count(), r.overflow.len(), r.sq_pending()));
+        format!("word={} cq={cq} ovf={ovf} sq={sq} returns={}", self.word(), self.returns)
     }
 
     /// Resume `w` until it is parked at a point of interest or done.
@@ -258,7 +263,8 @@ impl Case for WakeCase {
         let w_call = if self.wakers.len() < 3 || !idle.is_empty() { 4 } else { 0 };
         let w_w = if running.is_empty() { 0 } else { 8 };
         let w_k = if self.mode == "sqpoll" { 3 } else { 0 };
-        let w_io = if rng.chance(1, 12) { 1 } else { 0 };
+        // unrelated completions: rare with the large queue, frequent with a small one (fill it up)
+        let w_io = if self.cq_len <= 8 { 3 } else if rng.chance(1, 12) { 1 } else { 0 };
         if rng.chance(1, 8) {
             return Some("wake fill".into());
         }
@@ -399,6 +405,13 @@ impl Case for WakeCase {
             }
             _ => return vec!["bad-op".into()],
         };
+        let (cqc, ovf) = simk::with_ring(self.rfd, |r, _| (r.cq_count(), r.overflow.len()));
+        if cqc == self.cq_len && self.oblig {
+            self.feats.push("cq-exactly-full-after-wake".into());
+        }
+        if ovf > 0 {
+            self.feats.push("cq-overflow".into());
+        }
         self.check_lost();
         simk::drain_events();
         vec![out]
@@ -430,6 +443,10 @@ impl Case for WakeCase {
             if !progressed {
                 break;
             }
+            if self.mode == "sqpoll" {
+                // the kernel thread keeps running: a waker in the QueueFull retry loop needs it
+                self.exec("wake k");
+            }
         }
         if self.mode == "sqpoll" {
             self.exec("wake k");
@@ -451,6 +468,11 @@ impl Case for WakeCase {
             }
         }
         let stuck = sched::finish_all();
+        if !stuck.is_empty() && std::env::var_os("A10H_DEBUG").is_some() {
+            for t in &stuck {
+                eprintln!("stuck tid {t}: {:?}; poller={:?} wakers={:?} state={}", sched::status(*t), self.poller.as_ref().map(|p| (p.tid, p.label.clone())), self.wakers.iter().map(|w| (w.tid, w.label.clone(), w.done)).collect::<Vec<_>>(), self.state());
+            }
+        }
         if !stuck.is_empty() {
             self.oracle.push(("C11".into(), "C11/call-never-returns".into(), format!("{} thread(s) inside SubmissionQueue::wake / Ring::poll did not return within 100000 scheduling steps after the script ended (every other thread had finished, the kernel thread had run and a completion had been posted)", stuck.len())));
         }
@@ -489,7 +511,7 @@ impl Comp for WakeComp {
         "wake"
     }
     fn rule(&self) -> String {
-        "each case = one poller (Ring::poll(None) mostly, sometimes with a timeout) and up to 3 concurrent SubmissionQueue::wake callers as real threads on a default / SQPOLL / single-issuer ring with 1..4 submission entries, interleaved by a random schedule of ≤ 60 steps at the polling-word RMWs, the kernel entries (a poll(None) really blocks until a completion exists), the tail reload, plus kernel-thread steps and unrelated completions; non-trivial = a wake's fetch_or fell while the poller was blocked, between announcing and entering, or while leaving; distinct = distinct schedules".into()
+        "each case = one poller (Ring::poll(None) mostly, sometimes with a timeout) and up to 3 concurrent SubmissionQueue::wake callers as real threads on a default / SQPOLL / single-issuer ring with 1..4 submission entries and 1..64 completion entries (mostly few: the queue gets exactly full, and overflows onto the kernel's overflow list), interleaved by a random schedule of ≤ 60 steps at the polling-word RMWs, the kernel entries (a poll(None) really blocks until a completion exists), the tail reload, plus kernel-thread steps and unrelated completions; non-trivial = a wake's fetch_or fell while the poller was blocked, between announcing and entering, or while leaving; distinct = distinct schedules".into()
     }
     fn gen_header(&mut self, rng: &mut Rng, id: u64, _tier: &str) -> String {
         if rng.chance(1, 60) {
@@ -497,7 +519,17 @@ impl Comp for WakeComp {
         }
         let mode = *rng.pick(&["default", "default", "sqpoll", "single"]);
         let sq = *rng.pick(&[1u32, 2, 4]);
-        format!("wake begin {id} mode={mode} sq={sq} steps={}", rng.range(15, 60))
+        // mostly a small completion queue, so that it fills up (exactly, and beyond: overflow list)
+        let cq = match rng.below(5) {
+            0 => 64,
+            1 | 2 => sq,
+            3 => 2 * sq,
+            _ => 4 * sq,
+        };
+        if rng.chance(1, 80) {
+            return format!("wake begin {id} mode={mode} sq={sq} cq={} steps=5", *rng.pick(&[3u32, 128, 0]).max(&0));
+        }
+        format!("wake begin {id} mode={mode} sq={sq} cq={cq} steps={}", rng.range(15, 60))
     }
     fn begin(&mut self, header: &str) -> Box<dyn Case> {
         Box::new(WakeCase::new(header))
